@@ -1039,3 +1039,5 @@ def _had_parent(transitions, iteration):
     return has
 
 INFO['rule'] += ' Round-5 additions: children dial the obfuscated port (obf_dial).'
+
+INFO['rule'] += ' Round-6 additions: a child that introduces itself with an empty user name (nameless).'
